@@ -46,7 +46,7 @@ func deadlineOf(e *an.Expr) (string, bool) {
 
 func c16Lifetimes(c *Ctx, fn *ssa.Function, fields []string) {
 	name := c.fname(fn)
-	ps := c.pathsO("R-C16-1", fn, an.PathOpts{InlinePaths: func(f *ssa.Function) bool { return f.Pkg == fn.Pkg && inlineLoopFree(f) }})
+	ps := c.pathsO("R-C16-1", fn, an.PathOpts{InlinePaths: func(f *ssa.Function) bool { return (f.Pkg == fn.Pkg && inlineLoopFree(f)) || c.helperInline(fn)(f) }})
 	nDep := 0
 	for _, p := range ps {
 		if p.Panic != nil {
@@ -241,7 +241,7 @@ func runC16(c *Ctx) {
 		if f == nil {
 			continue
 		}
-		ps := c.pathsO("R-C16-3", f, an.PathOpts{InlinePaths: func(g *ssa.Function) bool { return g == pd }})
+		ps := c.pathsO("R-C16-3", f, an.PathOpts{InlinePaths: func(g *ssa.Function) bool { return g == pd || c.helperInline(f)(g) }})
 		nOK := 0
 		bad := ""
 		for _, p := range ps {
